@@ -16,7 +16,9 @@ Record order_ok_on {V} (good : V -> bool) (leb eqb : V -> V -> bool) : Prop := {
   leb_total : forall a b, good a = true -> good b = true -> leb a b = true \/ leb b a = true;
   leb_trans : forall a b c, good a = true -> good b = true -> good c = true ->
                             leb a b = true -> leb b c = true -> leb a c = true;
-  leb_antisym : forall a b, good a = true -> good b = true -> leb a b = true -> leb b a = true -> eqb a b = true
+  leb_antisym : forall a b, good a = true -> good b = true -> leb a b = true -> leb b a = true -> eqb a b = true;
+  (* the carrier is closed under ==: whatever equals a value of the carrier is in the carrier (a NaN equals nothing) *)
+  eqb_good : forall a b, good a = true -> eqb a b = true -> good b = true
 }.
 
 Definition everything {V} (_ : V) : bool := true.
@@ -160,10 +162,14 @@ Section Dict.
   Qed.
 
   Lemma dict_get_eq (d : list (V * entry)) k e v :
-    allgood good (map fst d) -> good v = true ->
+    allgood good (map fst d) ->
     distinct eqb (map fst d) -> In (k, e) d -> eqb k v = true -> dict_get eqb v d = Some e.
   Proof.
-    induction d as [|[k0 e0] r IH]; simpl; intros G Gv D I E; [contradiction|].
+    intros G0. assert (Gv : In (k, e) d -> eqb k v = true -> good v = true).
+    { intros I E. apply (eqb_good _ _ _ OK k v); [|exact E]. apply G0. apply in_map_iff. exists (k, e). auto. }
+    revert G0 Gv.
+    induction d as [|[k0 e0] r IH]; simpl; intros G Gv' D I E; [contradiction|].
+    pose proof (Gv' I E) as Gv.
     destruct I as [I|I].
     - inversion I. subst. rewrite E. reflexivity.
     - destruct (eqb k0 v) eqn:E0.
